@@ -402,7 +402,7 @@ impl<V: VringT<GM> + Clone + Send + Sync + 'static> DaemonAny<V> {
 static SOCK_SEQ: AtomicU64 = AtomicU64::new(0);
 
 pub fn sock_path() -> PathBuf {
-    let dir = std::path::Path::new(crate::engine::VERIF_DIR).join("target").join("tmp");
+    let dir = std::path::Path::new(&crate::engine::verif_dir()).join("target").join("tmp");
     let _ = std::fs::create_dir_all(&dir);
     dir.join(format!("s{}-{}", std::process::id(), SOCK_SEQ.fetch_add(1, Ordering::SeqCst)))
 }
